@@ -1184,7 +1184,9 @@ Proof.
     + eapply pool_agrees_fields; [reflexivity|reflexivity|reflexivity|reflexivity|reflexivity|apply (HP _ _ Hg Ha)].
     + intros a' p' Hne Hg' Hr. apply (HP _ _ Hg' Hr).
     + exact HO.
-  - destruct ((q_nb (pool <| q_bin := 0 |> <| q_bie := 0 |>) =? 0) || (q_eb (pool <| q_bin := 0 |> <| q_bie := 0 |>) =? 0)); [discriminate|].
+  - destruct ((q_nb (pool <| q_bin := 0 |> <| q_bie := 0 |>) =? 0) || (q_eb (pool <| q_bin := 0 |> <| q_bie := 0 |>) =? 0)).
+    { (* empty side: the pool is skipped, nothing is written *)
+      injection H as <- <-. split; [split; assumption|intros ? ? ? []]. }
     destruct new_rate as [[r rn] rd].
     change (pool <| q_bin := 0 |> <| q_bie := 0 |> <| q_rate := r |> <| q_rate_num := rn |> <| q_rate_den := rd |>) with (bb_p1 pool (r, rn, rd)) in H.
     change (s <| ms_pools := set asset (bb_p1 pool (r, rn, rd)) (ms_pools s) |>) with (bb_s1 s asset pool (r, rn, rd)) in H.
